@@ -169,8 +169,8 @@ func ZZ_C11_ersFaults() {
 // (ExtendedDaemonSet controller + every replica-set controller + kubelet model, template just
 // changed from A to B, no canary strategy) in which every API write of the FIRST round (thorough:
 // of the first two rounds) fails, is
-// applied with the answer lost, or succeeds — independently — and every controller is replaced by
-// a fresh instance afterwards.  At every point no node holds two daemon pods, and the following
+// applied with the answer lost, or succeeds — independently — and the controllers either keep
+// running or are replaced by fresh instances after every round.  At every point no node holds two daemon pods, and the following
 // failure-free rounds reach exactly the failure-free final state (one Ready B pod per node,
 // status counting them, the replica set of B active) and stay there.
 func ZZ_C11_roundsAfterFaults() {
@@ -234,17 +234,27 @@ func ZZ_C11_roundsAfterFaults() {
 		}
 		seenLog = len(c.Log)
 	}
+	// either the process survives the failed calls (the same controller instances keep running) or it
+	// is replaced by fresh instances after every round: "the controller keeps no decision state
+	// outside the API objects", so both must recover alike
+	fresh := nondet.Bool("freshInstancesEveryRound")
+	newEDS := func() *edsctrl.Reconciler {
+		r, _ := edsctrl.NewReconciler(edsctrl.ReconcilerOptions{DefaultValidationMode: datadoghqv1alpha1.ExtendedDaemonSetSpecStrategyCanaryValidationModeAuto}, c, c.Scheme(), logr.Logger{}, &fakeapi.Recorder{})
+		return r
+	}
+	edsRec, ersRec := newEDS(), zzReconciler(c, false)
 	round := func() (podWrites int) {
 		from := len(c.Log)
-		// fresh instances every round: the controllers keep no decision state of their own
-		edsRec, _ := edsctrl.NewReconciler(edsctrl.ReconcilerOptions{DefaultValidationMode: datadoghqv1alpha1.ExtendedDaemonSetSpecStrategyCanaryValidationModeAuto}, c, c.Scheme(), logr.Logger{}, &fakeapi.Recorder{})
+		if fresh {
+			edsRec, ersRec = newEDS(), zzReconciler(c, false)
+		}
 		_, _ = edsRec.Reconcile(context.TODO(), reconcile.Request{NamespacedName: types.NamespacedName{Namespace: zzNS, Name: zzEDSName}})
 		names := []string{}
 		for _, rs := range c.ERS {
 			names = append(names, rs.Name)
 		}
 		for _, name := range names {
-			_, _ = zzReconcile(zzReconciler(c, false), zzNS, name)
+			_, _ = zzReconcile(ersRec, zzNS, name)
 		}
 		for _, e := range c.Log[from:] {
 			if e.Kind == "Pod" && (e.Verb == "create" || e.Verb == "delete") {
